@@ -3,6 +3,8 @@ package scen
 import (
 	"fmt"
 	"net/netip"
+	"sync"
+	"sync/atomic"
 	"testing"
 	"testing/synctest"
 	"time"
@@ -10,6 +12,7 @@ import (
 	"github.com/IrineSistiana/mosproxy/internal/limiter"
 	"github.com/IrineSistiana/mosproxy/verifsim/plan"
 	"github.com/IrineSistiana/mosproxy/verifsim/sim"
+	"github.com/IrineSistiana/mosproxy/verifsim/vsync"
 )
 
 // refBucket is a textbook token bucket.
@@ -108,6 +111,54 @@ func RunLimiter(t *testing.T, p *plan.Plan, keepLog int) *Result {
 				}
 				break
 			}
+		}
+		// concurrent evaluations for one subnet in the same instant: together
+		// they cannot be admitted more than the subnet's bucket holds
+		if len(lp.Bursts) > 0 {
+			var yn uint64
+			vsync.HookY = func(pc uintptr) {
+				n := atomic.AddUint64(&yn, 1)
+				if s.Coin("limy", n, p.Knobs.YieldDensity) {
+					s.Fault("yield")
+					time.Sleep(s.Dur("limyd", n, 50, 20_000))
+				}
+			}
+			defer func() { vsync.HookY = nil }()
+		}
+		for bi, bu := range lp.Bursts {
+			if d := us(bu.AtUs) - s.Now(); d > 0 {
+				time.Sleep(d)
+			}
+			now := s.Now()
+			addr := netip.MustParseAddr(bu.Addr)
+			sn := subnetOf(lp.Spec, addr)
+			b := ref[sn]
+			if b == nil {
+				b = &refBucket{tokens: float64(burst), last: now}
+				ref[sn] = b
+			}
+			b.tokens = min(float64(burst), b.tokens+rate*(now-b.last).Seconds())
+			b.last = now
+			var wg sync.WaitGroup
+			var got atomic.Int64
+			for k := 0; k < bu.K; k++ {
+				wg.Add(1)
+				go func() {
+					defer wg.Done()
+					if cl.AllowN(addr, time.Now(), bu.N) {
+						got.Add(int64(bu.N))
+					}
+				}()
+			}
+			wg.Wait()
+			took := (s.Now() - now).Seconds()
+			s.Probe("c15_concurrent_burst_checked")
+			if float64(got.Load()) > b.tokens+rate*took+1e-6 {
+				s.Fail("C15", "over-admitted", "burst %d: %d concurrent evaluations of cost %d for %s (subnet %s) were admitted a total cost of %d in %.6fs although the subnet's bucket (rate %.0f burst %d) held %.3f tokens", bi, bu.K, bu.N, bu.Addr, sn, got.Load(), took, rate, burst, b.tokens)
+				break
+			}
+			b.tokens = max(0, b.tokens-float64(got.Load()))
+			admitted[sn] = append(admitted[sn], adm{now, int(got.Load())})
 		}
 		// the bound of the statement, on the real decisions
 		for sn, l := range admitted {
